@@ -114,35 +114,42 @@ def ob_ignore(form1: int, form2: int, ia: int, ib1: int, ib2: int, other_a: bool
 
 
 CONTAINERS = [
-    (lambda: {"x": 1, "y": 2}, lambda: {"y": 2, "x": 1}),
-    (lambda: {0, 8, 16}, lambda: {16, 8, 0}),
-    (lambda: {"k": {8, 0}}, lambda: {"k": {0, 8}}),
-    (lambda: [{"b": 1, "a": 2}], lambda: [{"a": 2, "b": 1}]),
-    (lambda: frozenset([0, 8]), lambda: frozenset([8, 0])),
-    (lambda: {1: "a", 2: "b", 3: "c"}, lambda: {3: "c", 1: "a", 2: "b"}),
-    (lambda: ({"p", "q"}, {"q": 1, "p": 2}), lambda: ({"q", "p"}, {"p": 2, "q": 1})),
+    (lambda w: {"x": 1, "y": 2}, lambda w: {"y": 2, "x": 1}),
+    (lambda w: {0, 8, 16}, lambda w: {16, 8, 0}),
+    (lambda w: {"k": {8, 0}}, lambda w: {"k": {0, 8}}),
+    (lambda w: [{"b": 1, "a": 2}], lambda w: [{"a": 2, "b": 1}]),
+    (lambda w: frozenset([0, 8]), lambda w: frozenset([8, 0])),
+    (lambda w: {1: "a", 2: "b", 3: "c"}, lambda w: {3: "c", 1: "a", 2: "b"}),
+    (lambda w: ({"p", "q"}, {"q": 1, "p": 2}), lambda w: ({"q", "p"}, {"p": 2, "q": 1})),
+    # keys of mixed types go through the digest-ordered fallback; -1 and -2 collide under the builtin hash
+    (lambda w: {-1: "x", -2: "y", "s": 0}, lambda w: {"s": 0, -2: "y", -1: "x"}),
+    (lambda w: {-1, -2, "s", None}, lambda w: {None, "s", -2, -1}),
+    # an argument that holds the Memory itself (an estimator with a `memory` attribute, the self of a cached method):
+    # in the next process it is another Memory object on the same location, created at another time
+    (lambda w: w.mem, lambda w: w.mem),
+    (lambda w: {"memory": w.mem, "n": 3}, lambda w: {"n": 3, "memory": w.mem}),
 ]
 
 
 def ob_containers(ci: int, form1: int, form2: int, boundary: int) -> bool:
     """
-    pre: 0 <= ci <= 6
+    pre: 0 <= ci <= 10
     pre: 0 <= form1 <= 3 and 0 <= form2 <= 3
     pre: 0 <= boundary <= 1
     post: _
     """
     H.enter()
-    c, fm1, fm2, bd = H.select(ci, 0, 6), H.select(form1, 0, 3), H.select(form2, 0, 3), H.select(boundary, 0, 1)
+    c, fm1, fm2, bd = H.select(ci, 0, 10), H.select(form1, 0, 3), H.select(form2, 0, 3), H.select(boundary, 0, 1)
     with H.native():
         w = memcalls.World()
         forms = memcalls.forms_for("f")
         problems = []
         with memlib.env(w.fs, w.clock):
             w.new_process()
-            problems += w.call("f", forms[fm1][0], CONTAINERS[c][0](), 2)
+            problems += w.call("f", forms[fm1][0], CONTAINERS[c][0](w), 2)
             if bd:
                 w.new_process("memory")
-            problems += w.call("f", forms[fm2][0], CONTAINERS[c][1](), 2, check_first=True)
+            problems += w.call("f", forms[fm2][0], CONTAINERS[c][1](w), 2, check_first=True)
         for kind, m in problems:
             H.note(m)
         return H.verdict(not problems)
